@@ -13,7 +13,7 @@ import (
 func VerifC19_TwoCreations() {
 	verifExpect("identical-contents", "different-contents")
 	e := newVEnv(types.StoreKey, 10)
-	k := Keeper{storeKey: e.key, cdc: e.cdc}
+	k := NewKeeper(e.cdc, e.key)
 	creator := vAddr(1)
 	c0 := verifUint32("counter")
 	verifAssume(c0 < 0xfffffffe) // uint32 wrap after 4*10^9 records is outside the claim
